@@ -68,7 +68,7 @@ GF == [
   b2T |-> [kind |-> "fn", sites |-> << Site("x", "d0", Arg), Site("w", "d1", Val("x")) >>, ret |-> Val("w")],
   b2F |-> [kind |-> "fn", sites |-> << Site("x", "d2", Arg), Site("w", "d0", Add(Val("x"), Cn(1))) >>, ret |-> Add(Val("w"), Val("x"))],
   c2  |-> [kind |-> "cond", t |-> "b2T", f |-> "b2F"],
-  fa  |-> [kind |-> "fn", sites |-> << Site("c", "c2", <<"pair", <<"eq", Arg, Cn(0)>>, Arg>>), Site("y", "d1", Val("c")) >>,
+  fa  |-> [kind |-> "fn", sites |-> << SiteKw("c", "c2", <<"pair", <<"eq", Arg, Cn(0)>>, Arg>>), Site("y", "d1", Val("c")) >>,
            ret |-> Val("y")],
   \* cond directly over two distributions
   cdd |-> [kind |-> "cond", t |-> "d0", f |-> "d1"],
